@@ -4,6 +4,8 @@ COMMON = ["harness/mon.c", "harness/lec.c", "ref/ref.c"]
 DRIVER_SOURCES = {
     "drv_codec": {"src": ["harness/drv_codec.c"] + COMMON},
     "drv_format": {"src": ["harness/drv_format.c"] + COMMON},
+    "drv_pure": {"src": ["harness/drv_pure.c"] + COMMON},
+    "drv_conc": {"src": ["harness/drv_conc.c"] + COMMON},
     "drv_api": {"src": ["harness/drv_api.c", "harness/ledger.c"] + COMMON},
     "drv_api_ledger": {"src": ["harness/drv_api.c", "harness/ledger.c"] + COMMON, "cflags": ["-DLEDGER"]},
 }
@@ -41,6 +43,25 @@ def api(prop, level, rule, **kw):
 
 
 PROPS = {
+    "C18": {"level": "exploration", "assumptions": TRUST + ["ThreadSanitizer reports only races on executions that happened; directed pauses use relaxed atomics + sched_yield (no happens-before edge added)"],
+            "rule": "ThreadSanitizer build of the real library under (a) 2..16 threads sharing one descriptor (encode/decode/reconstruct/queries/validation), (b) per-thread create-use-destroy loops over mixed backends incl. first-ever RS creates (GF tables are rebuilt whenever the last RS instance died), (c) both; "
+                    "plus directed interleavings: for operation pairs over {create rs/xor, destroy rs/xor, encode, decode, size query, create-use-destroy} and every pair (p,q) of the 19 guarded yield points both operations reach, thread A pauses at p until thread B has passed q (time-out = infeasible ordering, not a verdict), run on the tsan and asan flavours; "
+                    "oracles: every thread's results equal the sequential reference stripe, descriptors unique among live ones, any TSan report is a violation; non-trivial = every stress round and directed run; distinct = (workload, threads, round, shard) or (opA, opB, p, q); coverage also lists the number of distinct hook-event interleavings observed",
+            "distinct_class": "nontrivial",
+            "runs": [{"name": "tsan-shared", "flavour": "tsan", "driver": "drv_conc", "args": ["--mode", "shared"], "shards": 6, "timeout": {"quick": 150, "thorough": 1800}, "stop_after_crashes": 3},
+                     {"name": "tsan-own", "flavour": "tsan", "driver": "drv_conc", "args": ["--mode", "own"], "shards": 10, "timeout": {"quick": 150, "thorough": 1800}, "stop_after_crashes": 3},
+                     {"name": "tsan-mixed", "flavour": "tsan", "driver": "drv_conc", "args": ["--mode", "mixed"], "shards": 8, "timeout": {"quick": 150, "thorough": 1800}, "stop_after_crashes": 3},
+                     {"name": "tsan-directed", "flavour": "tsan", "driver": "drv_conc", "args": ["--mode", "directed"], "shards": 16, "timeout": {"quick": 150, "thorough": 1800}, "stop_after_crashes": 3},
+                     {"name": "asan-directed", "flavour": "asan", "driver": "drv_conc", "args": ["--mode", "directed"], "shards": 8, "timeout": {"quick": 150, "thorough": 1800}, "stop_after_crashes": 3},
+                     {"name": "asan-own", "flavour": "asan", "driver": "drv_conc", "args": ["--mode", "own"], "shards": 4, "timeout": {"quick": 150, "thorough": 1800}, "stop_after_crashes": 3}]},
+    "C15": {"level": "exploration", "assumptions": TRUST + ["page protection detects stray writes anywhere in an input and reads outside it only up to the adjacent guard page"],
+            "rule": "case = (config, length): data and every input fragment / index list placed in its own mapping, read-only during the call, end-pinned or start-pinned against a PROT_NONE page (or 16-aligned with <=15 bytes slack); "
+                    "encode, decode (with data loss, shuffled, duplicates), reconstruct (erased and available destination), get_fragment_metadata, is_invalid_fragment, verify_stripe_metadata, fragments_needed all run that way; encode output must equal the reference serializer and the first encode "
+                    "after random unrelated API histories, with other instances alive, and on 8 concurrent threads; a SIGSEGV in a guarded region, a changed input or a differing output is a violation; non-trivial = every (erasure set, placement) and every re-encode; distinct = (config, length, erasure set, placement | history)",
+            "runs": [{"name": "plain-guard", "flavour": "plain", "driver": "drv_pure", "args": []},
+                     {"name": "asan-guard", "flavour": "asan", "driver": "drv_pure", "args": []},
+                     {"name": "asan-nosse-guard", "flavour": "asan-nosse", "driver": "drv_pure", "args": [], "shards": 8},
+                     {"name": "threads", "flavour": "asan", "driver": "drv_pure", "args": ["--mode", "threads"], "shards": 4}]},
     "C14": api("C14", "exploration",
                "history + executable model: all canonical action sequences over <=4 slots with alphabet {create rs(4,2), rs(3,3), xor(5,5,3), null, failed-create, destroy(dead), destroy(slot), use(slot)} up to depth 4 (quick) / 6 (thorough), each with and without the descriptor counter preset to INT_MAX-3; "
                "random histories of length 10..200 with counter presets {none, INT_MAX-3, INT_MAX-1, -5}; all 24 destruction orders of four RS instances; after every step: registry length == |model|, descriptor positive and unique, APIs on dead descriptors fail, used instance round-trips (decode with data loss + re-encode equals kept stripe); "
